@@ -131,7 +131,7 @@ def productive(g):
     return m
 
 def usable(g):
-    """generator-side sanity: root productive, every nonterminal has a rule, no error token unless wanted"""
+    """generator-side sanity: root productive, every nonterminal has a rule (rule-less nonterminals are added separately by shuffle_symbols)"""
     m = productive(g)
     return m[g.root] < 10 ** 9 and all(any(r.lhs == i for r in g.rules) for i in range(len(g.nts)))
 
@@ -435,3 +435,36 @@ def to_custom_lexer(g, rnd):
     g.vtypes = [v if v != 'I' else 'V' for v in g.vtypes]
     g.note += '+customlexer'
     return g
+
+
+def shuffle_symbols(g, rnd, extras=True):
+    """an isomorphic grammar with the nonterminals and terms listed in another order (root no longer first), optionally with an
+    unused term, an unused nonterminal, and a declared nonterminal that has no rule at all"""
+    g = clone(g)
+    nn = len(g.nts); nt = len(g.terms)
+    pn = list(range(nn)); rnd.shuffle(pn)          # new position of old nonterminal i is pn[i]
+    pt = list(range(nt)); rnd.shuffle(pt)
+    nts = [None] * nn; vts = [None] * nn
+    for i in range(nn): nts[pn[i]] = g.nts[i]; vts[pn[i]] = g.vtypes[i]
+    terms = [None] * nt
+    for j in range(nt): terms[pt[j]] = g.terms[j]
+    def ms(sy): return ('n', pn[sy[1]]) if sy[0] == 'n' else ('t', pt[sy[1]]) if sy[0] == 't' else sy
+    rules = [Rule(pn[r.lhs], [ms(sy) for sy in r.rhs], r.prec, r.ftor) for r in g.rules]
+    h = Grammar(nts, terms, rules, pn[g.root], vts, g.note + '+shuffled')
+    h.tvtype = g.tvtype; h.lexspec = g.lexspec
+    if extras:
+        x = rnd.random()
+        used = {t.text for t in h.terms}
+        if x < 0.3:
+            c = next((ch for ch in '%$~`' if ch not in used), None)
+            if c: h.terms.insert(rnd.randrange(len(h.terms) + 1), Term('c', c)); h = _reindex_terms_after_insert(h, c)
+        elif x < 0.5:
+            # a declared nonterminal without any rule; sometimes referenced by a (then useless) rule
+            h.nts.append('Norule'); h.vtypes.append('V')
+            if rnd.random() < 0.5: h.rules.append(Rule(rnd.randrange(nn), [('n', len(h.nts) - 1), ('t', rnd.randrange(len(h.terms)))]))
+    return h
+
+def _reindex_terms_after_insert(h, c):
+    k = next(i for i, t in enumerate(h.terms) if t.text == c and t.kind == 'c')
+    h.rules = [Rule(r.lhs, [(('t', sy[1] + 1) if sy[0] == 't' and sy[1] >= k else sy) for sy in r.rhs], r.prec, r.ftor) for r in h.rules]
+    return h
